@@ -203,6 +203,16 @@ def find_function(tree, qual):
                 if isinstance(ch, (ast.FunctionDef, ast.ClassDef)) and ch.name == p and ch is not node:
                     nxt = ch
                     break
+        if nxt is None and p == "<lambda>":
+            # the lambda of the enclosing function (exactly one, else ambiguous)
+            lams = [ch for ch in ast.walk(node) if isinstance(ch, ast.Lambda)]
+            if len(lams) == 1:
+                # `lambda a: e` is `def <lambda>(a): return e`
+                lam = lams[0]
+                ret = ast.copy_location(ast.Return(value=lam.body), lam.body)
+                nxt = ast.copy_location(ast.FunctionDef(name="<lambda>", args=lam.args, body=[ret], decorator_list=[],
+                                                        returns=None, type_comment=None), lam)
+                ast.fix_missing_locations(nxt)
         if nxt is None:
             raise KeyError("function %s not found" % qual)
         node = nxt
